@@ -144,6 +144,29 @@ def run(chk: common.Check):
             variants.append(("chains A/B, first +1000", lambda: relabel(relabel(text, adj), None, {"A": 1000}), False))
             variants.append(("chains A/B, second -1000", lambda: relabel(relabel(text, adj), None, {"B": -1000}) if min(nums[b]) - 1000 >= -999 else None, False))
             variants.append(("chains X/Y, first +1000, second to negative", lambda: relabel(relabel(text, {a: "X", b: "Y"}), None, {"X": 1000, "Y": -(min(nums[b]) + 20)}), False))
+        if len(chains) >= 2:
+            a, b = chains[0], chains[1]
+            # chain identifiers that differ only in case are different chains (order preserving: 'A' < 'a')
+            variants.append(("chains renamed to A / a (identifiers differing only in case)", lambda: relabel(text, {a: "A", b: "a"}), False))
+            variants.append(("chains renamed to B / b", lambda: relabel(text, {a: "B", b: "b"}), False))
+            # a file without TER records and without terminal oxygens: chain starts are decided by the file layout only, never by the numbers
+            bare = "\n".join(l for l in text.splitlines() if l[:3] != "TER" and not (structures.is_atom(l) and l[12:16].strip() in ("OXT", "O''"))) + "\n"
+            try:
+                mol_b, _ = structures.run(bare)
+                nb0 = numbers(mol_b)
+                for what_b, shift_b in ((f"second chain +100", {b: 100}), (f"first chain -200", {a: -200}), ("first +1000, second +2000", {a: 1000, b: 2000})):
+                    try:
+                        tb = relabel(bare, None, shift_b).replace("TER   \n", "")
+                    except ValueError:
+                        continue
+                    mol_s, _ = structures.run(tb)
+                    chk.count(1, key=("bare-layout", n, what_b))
+                    d = first_diff(nb0, numbers(mol_s))
+                    if d:
+                        found.append(("labels-influence-numbers:no-TER-layout", f"{n} without TER / OXT records, {what_b}: {d}",
+                                      {"case": n, "relabelling": what_b, "first_difference": d, "pdb_text": tb if len(tb) < 250000 else None}))
+            except Exception as ex:   # noqa: BLE001
+                found.append(("crash-after-relabelling", f"{n} without TER / OXT: {type(ex).__name__}: {ex}", {"case": n}))
         tw = has_twins(text)
         variants.append(("renumbered in file order" + (" (structure has insertion-code twins)" if tw else ""), lambda: renumber_file_order(text), tw))
         for what, mk, twins in variants:
